@@ -6,6 +6,7 @@
 
 pub mod basic_rules;
 pub mod circuit;
+pub mod cli;
 pub mod decompose;
 pub mod detection_webs;
 pub mod equality;
